@@ -251,8 +251,27 @@ def rule_R3(ck):
     for n in walk_local(main):
         if isinstance(n, ast.With) and any(isinstance(c, ast.Call) and isinstance(c.func, ast.Attribute) and c.func.attr == "compile_and_link_files" for c in ast.walk(n)):
             scope = n
+    cli_helpers = {q2 for q2, f2 in repo.all_functions() if q2.split("::")[0] == "_cli" and q2 != "_cli::main_cli" and isinstance(f2, ast.FunctionDef)}
     if scope is None:
-        raise Unknown("main_cli: the report scope around compile_and_link_files was not found")
+        # main_cli split into helpers: the compile scope lives in one of them. Who may write is still decided here (the module's own helpers
+        # write on main_cli's behalf); WHEN they write relative to the compile scope is decided by executing main_cli (rule CLI)
+        moved = [q2 for q2 in cli_helpers if any(isinstance(n, ast.With) and any(isinstance(c, ast.Call) and isinstance(c.func, ast.Attribute) and c.func.attr == "compile_and_link_files" for c in ast.walk(n))
+                                                 for n in walk_local(repo.func(q2)))]
+        if not moved:
+            raise Unknown("main_cli: the report scope around compile_and_link_files was not found")
+        for q, n, what in sites:
+            ck.instance(("write", q, what, n.lineno), {"site": q, "effect": what, "order decided by": "CLI model (executed)"}, fn=q)
+            if q == "compiler::Compiler.emit_files" or q == "_cli::main_cli" or q in cli_helpers or (q.split("::")[0] == "compiler" and "compiler::Compiler.emit_files" in ck._owners(public_qual(q))):
+                continue
+            ck.violation(n, f"{what} in {q}: only emit_files and main_cli (after a successful compile) may write files; a directive that writes while compiling leaves output behind when the run later fails",
+                         construct=f"write effect in {q.split('::')[1]}")
+        for q, fn in repo.all_functions():
+            if q == "_cli::main_cli" or q in cli_helpers:
+                continue
+            for c in guards.calls_in(fn):
+                if isinstance(c.func, ast.Attribute) and c.func.attr == "emit_files":
+                    ck.violation(c, f"emit_files is called from {q}", construct=f"emit_files called from {q}")
+        return
     # helpers reached only from emit_files (transitively) write on its behalf
     emit_helpers, changed = set(), True
     while changed:
@@ -340,6 +359,16 @@ def rule_R4(ck):
             ck.instance(("handler", tuple(names), h.lineno), {"handler": names, "ends in a failing exit": ok, "via flag": flag}, fn=where)
             if not ok:
                 ck.violation(h, f"the handler for {names} in main_cli does not end in sys.exit(non-zero): the failure is swallowed and the run reports success (exit status 0)", construct=f"handler {'/'.join(str(x) for x in names)} without failing exit")
+    # handlers in helpers of the module (read_sources(), save_file(), ...): how their failure travels back to an exit status is a matter of
+    # return values - decided by executing main_cli whole over the failure configurations (rule CLI), recorded here
+    for q2, fn2 in repo.all_functions():
+        if q2.split("::")[0] != "_cli" or q2 == where or isinstance(fn2, ast.Lambda) or "<locals>" in q2:
+            continue
+        for t in walk_local(fn2):
+            if isinstance(t, ast.Try):
+                for h in t.handlers:
+                    n += 1
+                    ck.instance(("handler", q2, tuple(guards.handler_names(h)), h.lineno), {"handler": guards.handler_names(h), "in helper": q2, "decided by": "CLI model (executed)"}, fn=q2)
     if n < 6:
         ck.unknown(f"only {n} failure handlers found in main_cli (7 confirmed by hand)")
     # no sys.exit on the success path (top level of the main try body / function body)
@@ -357,6 +386,38 @@ def _parents(node, stop):
     while p is not None and p is not stop:
         yield p
         p = getattr(p, "_parent", None)
+
+
+def _helper_result_depends(helper, call, seeds, names):
+    """does a value returned by `helper` depend on an argument of `call` that carries the report options? (assignment closure inside the helper;
+    passing the handler to reports.handle_reports / FilterHandler is what it is for and taints nothing)"""
+    params = [a.arg for a in helper.args.args]
+    hot = set()
+    for i, a in enumerate(call.args):
+        if i < len(params) and (any(s_ in norm_text(a) for s_ in seeds) or {m.id for m in ast.walk(a) if isinstance(m, ast.Name)} & names):
+            hot.add(params[i])
+    for k in call.keywords:
+        if k.arg in params and (any(s_ in norm_text(k.value) for s_ in seeds) or {m.id for m in ast.walk(k.value) if isinstance(m, ast.Name)} & names):
+            hot.add(k.arg)
+    if not hot:
+        return False
+    changed = True
+    while changed:
+        changed = False
+        for n in walk_local(helper):
+            if isinstance(n, ast.Assign):
+                targets, val = n.targets, n.value
+            elif isinstance(n, ast.For):
+                targets, val = [n.target], n.iter
+            else:
+                continue
+            if {m.id for m in ast.walk(val) if isinstance(m, ast.Name)} & hot:
+                for t in targets:
+                    for m in ast.walk(t):
+                        if isinstance(m, ast.Name) and m.id not in hot:
+                            hot.add(m.id)
+                            changed = True
+    return any(isinstance(r, ast.Return) and r.value is not None and {m.id for m in ast.walk(r.value) if isinstance(m, ast.Name)} & hot for r in walk_local(helper))
 
 
 def rule_R6(ck):
@@ -380,7 +441,11 @@ def rule_R6(ck):
                 continue
             txt = norm_text(val)
             used = {m.id for m in ast.walk(val) if isinstance(m, ast.Name)}
-            if any(s in txt for s in seeds) or used & names:
+            flows = any(s in txt for s in seeds) or bool(used & names)
+            if flows and isinstance(val, ast.Call) and isinstance(val.func, ast.Name) and repo.has_func(f"_cli::{val.func.id}"):
+                # a helper of the module: the result depends on the report options only if a tainted ARGUMENT reaches a return value inside it
+                flows = _helper_result_depends(repo.func(f"_cli::{val.func.id}"), val, seeds, names)
+            if flows:
                 for t in targets:
                     for m in ast.walk(t):
                         if isinstance(m, ast.Name) and m.id not in names:
@@ -573,7 +638,7 @@ def run(ck):
     from ..rules import deliver
     ck.run_rule("R.deliver", "an emitted error reaches the handler at once and latches, also inside speculative evaluation", 6, deliver.rule_deliver)
     ck.run_rule("C07.R2", "conversion at scope exit over the complete valuation; latch writer/reader agreement", 16, rule_R2)
-    ck.run_rule("C07.R3", "who may write files, and when", 4, rule_R3)
+    ck.run_rule("C07.R3", "who may write files, and when", 3, rule_R3)
     ck.run_rule("C07.R4", "every failure handler of main_cli ends in a failing exit", 6, rule_R4)
     ck.run_rule("C07.R5", "FilterHandler drops warnings only, by the -W control and the default class", 15, rule_R5)
     ck.run_rule("C07.R6", "-W and --report-format flow only into the handler object", 5, rule_R6)
